@@ -268,7 +268,17 @@ func genHistory(t *Tape, k *Knobs, m mix, n int) []Step {
 				continue
 			}
 			s := Step{Op: "redeem", C: -1, G: t.Intn(codes * 2), P: map[string]string{}}
-			switch t.Intn(7) {
+			switch t.Intn(8) {
+			case 7:
+				// a foreign PUBLIC client identifies itself in the Authorization header and names the code's owner in the body
+				s.C = t.Intn(nc)
+				for i, c := range k.Clients {
+					if c.Public && !c.OIDC {
+						s.C = i
+						s.A = "pub_basic"
+						s.P["client_id"] = "victim"
+					}
+				}
 			case 0:
 				s.C = t.Intn(nc)
 			case 1:
@@ -411,6 +421,16 @@ func genHistory(t *Tape, k *Knobs, m mix, n int) []Step {
 				s := Step{Op: "authz_par", C: -1, G: t.Intn(pars * 2), P: map[string]string{}}
 				if t.Chance(15) {
 					s.C = t.Intn(nc)
+				}
+				if m.par >= 50 && t.Chance(12) {
+					// request URIs the server never issued: own prefix, or a foreign one (an ordinary parameter unless pushing is enforced)
+					s.V = t.Pick([]string{"unknown", "foreign_prefix", "foreign_prefix"})
+					s.C = t.Intn(nc)
+					if t.Chance(65) {
+						s.P["inline"] = "1"
+					}
+					steps = append(steps, s)
+					continue
 				}
 				if t.Chance(30) {
 					s.P["x_scope"] = "admin photos"
